@@ -150,8 +150,8 @@ def main(prop, build_jobs, harnesses, assumptions, describe=None):
         for v in r['violations']:
             (confirmed if v.get('confirmed') else unconfirmed).append(v)
         for m in r['witness_mismatch']:
-            mismatches.append(dict(harness=r['harness'], params=r['params'],
-                                   **m))
+            mismatches.append(dict(why=m['why'], harness=r['harness'],
+                                   params=r['params'], inputs=m['inputs']))
         for inc in r['inconclusive']:
             inconclusive.append(dict(harness=r['harness'],
                                      params=r['params'], why=inc))
